@@ -77,9 +77,9 @@ THEOREMS = [("Kopf.Props.C10", "Kopf.C10." + n) for n in [
     "success_marks_state", "interval_law_step", "interval_law", "sharp_grid_step", "sharp_grid", "error_delay_step",
     "error_delay_law", "initial_delay_law", "idle_law", "idle_law_full", "idle_law_partial", "idle_recv_clause_false_witness",
     "idle_only_law", "one_shot",
-    "invoked_unless_failed_no_timeout", "timeout_ends_series", "timeout_before_first_call"]]
+    "invoked_unless_failed_no_timeout", "timeout_ends_series", "first_attempt_not_timed_out"]]
 TIE_THEOREMS = [("Kopf.Tie.C10", "Kopf.C10.Tie." + n) for n in [
-    "post_eq", "reset_top_eq", "at_top_eq", "reset_cond_eq", "resets_idle_eq", "idle_cond_eq", "idle_delay_eq", "poll_cond_eq", "poll_delay_eq", "shape_eq", "stopper_guards_eq", "idle_step_eq", "poll_step_eq"]]
+    "post_eq", "reset_top_eq", "at_top_eq", "restart_clock_eq", "at_start_eq", "forever_stopped_eq", "reset_cond_eq", "resets_idle_eq", "idle_cond_eq", "idle_delay_eq", "poll_cond_eq", "poll_delay_eq", "shape_eq", "stopper_guards_eq", "idle_step_eq", "poll_step_eq"]]
 RULE = ("seeded scenarios: 1-2 timers on 1-2 objects, all 16 presence combinations of interval/sharp/idle/initial_delay "
         "(stratified), scripted results ok/ok+result/ok+patch/temporary(delay)/arbitrary/permanent with function durations "
         "0, <, =-1tick, =, =+1tick, > the interval (1.5x, 2x, 2.5x), backoff/retries/errors/timeout options (timeout below, at, above "
@@ -133,6 +133,9 @@ POST_VOCAB = {
     "handler.interval is not None": "a.hasInterval",
     "handler.sharp": "a.sharp",
     "handler.idle is not None": "a.hasIdle",
+}
+START_VOCAB = {
+    "state[handler.id].retries": "a.anyAttempt",
 }
 TOP_VOCAB = {
     "state.done": "a.done",
@@ -292,7 +295,7 @@ def extract(ctx: Ctx) -> None:
     if loop is None:
         raise ExtractError("_timer: the main loop is gone")
     steps: list[str] = []
-    idle_cond = idle_delay = post_body = reset_top = None
+    idle_cond = idle_delay = post_body = reset_top = restart_clock = forever = None
     for st in loop.body:
         text = pyextract.norm(st)
         if text == "await asyncio.sleep(0)" and not steps:
@@ -319,6 +322,16 @@ def extract(ctx: Ctx) -> None:
                 raise ExtractError(f"idle gate does not sleep: `{pyextract.norm(w.body[1])}`")
             idle_delay = _arith(arg, env)
             steps.append("Step.idleGate")
+        elif isinstance(st, ast.If) and not st.orelse and len(st.body) == 1 and restart_clock is None \
+                and steps and steps[-1] == "Step.idleGate" \
+                and pyextract.norm(st.body[0]) == "state = progression.State.from_scratch().with_handlers([handler])":
+            restart_clock = pyextract.BoolTranslator(START_VOCAB).tr(st.test)   # a series without an attempt restarts its clock
+            steps.append("Step.restartClockIfNoAttempt")
+        elif isinstance(st, ast.If) and not st.orelse and len(st.body) == 1 and forever is None \
+                and steps and steps[-1] == "Step.withOutcomes" \
+                and pyextract.norm(st.body[0]) == "memory.forever_stopped.add(handler.id)":
+            forever = pyextract.BoolTranslator(TOP_VOCAB).tr(st.test)           # a final failure: never spawned again in this process
+            steps.append("Step.markForeverStopped")
         elif text == "started = clock()":
             steps.append("Step.stampStart")
         elif isinstance(st, ast.Assign) and _call_text(st) == "execution.execute_handlers_once" \
@@ -339,7 +352,7 @@ def extract(ctx: Ctx) -> None:
             steps.append("Step.post")
         else:
             raise ExtractError(f"_timer loop: statement outside the skeleton: `{text[:160]}`")
-    if idle_cond is None or idle_delay is None or post_body is None or reset_top is None:
+    if idle_cond is None or idle_delay is None or post_body is None or reset_top is None or restart_clock is None or forever is None:
         raise ExtractError("_timer loop: state reset, idle gate or post-run chain not found")
     # the poll loop's condition/sleep are inside the chain; extract them separately for their own tie
     poll = [n for n in ast.walk(loop) if isinstance(n, ast.While) and _poll_test(n.test) is not None]
@@ -358,6 +371,8 @@ def extract(ctx: Ctx) -> None:
     out += f"def post (a : PostAtoms) : Post :=\n    {post_body}\n\n"
     out += "/-- the carried state is replaced by a fresh one at the top of the loop -/\n"
     out += f"def resetAtTop (a : TopAtoms) : Bool := {reset_top}\n\n"
+    out += f"def restartsClock (a : StartAtoms) : Bool := {restart_clock}\n\n"
+    out += f"def marksForeverStopped (a : TopAtoms) : Bool := {forever}\n\n"
     out += "/-- processing._detect_causes: the event resets idling -/\n"
     out += f"def resetCond (a : ResetAtoms) : Bool := {reset_cond}\n\n"
     out += f"def idleCond (a : GateAtoms) : Bool := {idle_cond}\n\n"
@@ -899,6 +914,7 @@ def oracle(ctx: Ctx, sc: dict, tr: dict, stats: dict | None = None) -> None:
             ts = [(c["t1"] if c.get("t1") is not None else c["t0"]) for c in cycles if c["t0"] <= t]
             return max(ts) if ts else None
 
+        failed_for_good: dict[Any, dict] = {}
         for k, b in enumerate(calls):
             # O5 — the first run of every spawn is not earlier than the initial delay
             i = inst_of(b)
@@ -932,16 +948,20 @@ def oracle(ctx: Ctx, sc: dict, tr: dict, stats: dict | None = None) -> None:
                 fail("overlap", f"timer {hid}: run started at {b['t']} while the previous one (started {a['t']}) ended at {a.get('t_end')}",
                      uid=uid, id=hid, prev=a, call=b)
                 continue
-            if inst_of(a) is not i or i is None:
-                continue        # a respawn in between: the gap belongs to the initial delay
             kind, d = _kind_of(a, cfg)
             if kind == "retry" and cfg["timeout"] is not None and recorded_final(a):
                 kind = "final"      # `runtime + delay >= timeout`: recorded as failed for good (the look-ahead of C11)
             if kind == "final":
-                # docs/timers.rst: "the timer stops forever and is not retried"
-                fail("permanent", f"timer {hid}: run at {b['t']} (retry={b.get('retry')}) after the run at {a['t']} had failed for good ({a.get('outcome')})",
-                     uid=uid, id=hid, prev=a, call=b)
+                failed_for_good[a["inc"]] = a
+            if b["inc"] in failed_for_good:
+                # docs/timers.rst: "the timer stops forever and is not retried" — in this operator process, also after
+                # a re-spawn (filter mismatch and re-match, pause/resume): memory.forever_stopped
+                f0 = failed_for_good[b["inc"]]
+                fail("permanent", f"timer {hid}: run at {b['t']} (retry={b.get('retry')}) after the run at {f0['t']} had failed for good ({f0.get('outcome')})",
+                     uid=uid, id=hid, prev=f0, call=b)
                 continue
+            if inst_of(a) is not i or i is None:
+                continue        # a respawn in between: the gap belongs to the initial delay
             pat = patched_of(a)
             rt = None if pat is None else pat - a["t_end"]
             lastc = last_cycle_upto(b["t"])
